@@ -5,6 +5,7 @@ import (
 	"os"
 	"path/filepath"
 	"sort"
+	"strings"
 
 	"github.com/diskfs/go-diskfs/filesystem"
 	"github.com/diskfs/go-diskfs/filesystem/ext4"
@@ -34,14 +35,73 @@ type target struct {
 	// layout returns the parameters the Lean model of this filesystem's handle arithmetic takes
 	// ("k=v" fields for the case line) for an open handle.
 	layout func(f filesystem.File, size int) ([]string, error)
+	lite    bool     // regime target: reduced alphabet for the enumeration
+	regimes []string // stat keys that say which regimes this target reaches (counted once per sequence)
 }
 
 func (t *target) open(name string) (f filesystem.File, err error) {
+	return t.openVia(name, "OpenFile")
+}
+
+// openModes lists the ways a read handle can be obtained on this target (OBSERVE AT: OpenFile / Open):
+// OpenFile(O_RDONLY), the io/fs style Open, OpenFile(O_RDWR) where the filesystem is writable, and on
+// squashfs the Open method of a directory entry returned by ReadDir.
+func (t *target) openModes() []string {
+	switch {
+	case strings.HasPrefix(t.kind, "fat"), t.kind == "ext4":
+		return []string{"OpenFile", "Open", "OpenFile-RDWR"}
+	case t.kind == "squashfs":
+		return []string{"OpenFile", "Open", "DirEntry.Open"}
+	}
+	return []string{"OpenFile", "Open"}
+}
+
+func (t *target) openVia(name, mode string) (f filesystem.File, err error) {
 	defer func() {
 		if r := recover(); r != nil {
-			err = fmt.Errorf("panic in OpenFile: %v", r)
+			err = fmt.Errorf("panic in %s: %v", mode, r)
 		}
 	}()
+	switch mode {
+	case "Open":
+		h, e := t.fs.Open(name)
+		if e != nil {
+			return nil, e
+		}
+		ff, ok := h.(filesystem.File)
+		if !ok {
+			return nil, fmt.Errorf("Open returned %T, not a filesystem.File", h)
+		}
+		return ff, nil
+	case "OpenFile-RDWR":
+		return t.fs.OpenFile(name, os.O_RDWR)
+	case "DirEntry.Open":
+		ents, e := t.fs.ReadDir(".")
+		if e != nil {
+			return nil, e
+		}
+		for _, de := range ents {
+			if de.Name() != name {
+				continue
+			}
+			var o any = de
+			if _, ok := o.(interface {
+				Open() (filesystem.File, error)
+			}); !ok {
+				if fi, e := de.Info(); e == nil {
+					o = fi
+				}
+			}
+			op, ok := o.(interface {
+				Open() (filesystem.File, error)
+			})
+			if !ok {
+				return nil, fmt.Errorf("directory entry %T has no Open method", de)
+			}
+			return op.Open()
+		}
+		return nil, fmt.Errorf("%s not listed by ReadDir", name)
+	}
 	return t.fs.OpenFile(name, os.O_RDONLY)
 }
 
@@ -64,7 +124,7 @@ func content(r *hx.Rng, n, unit int, zeroRun bool) []byte {
 
 // sizes around the boundaries of unit, plus the sizes of the recorded witnesses.
 func boundarySizes(unit int, thorough bool) []int {
-	s := []int{0, 1, unit - 1, unit, unit + 1, 2*unit - 1, 2 * unit, 2*unit + 1, 700, 10000, 3*unit + 77}
+	s := []int{0, 1, unit - 1, unit, unit + 1, 2*unit - 1, 2 * unit, 2*unit + 1, 700, 10000, 3*unit + 77, 6*unit + 33}
 	if thorough {
 		s = append(s, 2, unit/2, 4*unit, 5*unit+123, 7*unit-1, 8*unit+1)
 	}
@@ -133,6 +193,176 @@ func fatLayout(bpc int) func(f filesystem.File, size int) ([]string, error) {
 		}
 		return []string{"fs=fat", fmt.Sprintf("unit=%d", bpc), fmt.Sprintf("size=%d", size), fmt.Sprintf("ncl=%d", ncl)}, nil
 	}
+}
+
+// liteFiles: the files of a regime target (sizes around the unit, one of several units).
+func liteFiles(r *hx.Rng, unit int) []fileSpec {
+	var fs []fileSpec
+	for i, n := range []int{unit - 1, unit + 1, 2 * unit, 5*unit + 77} {
+		fs = append(fs, fileSpec{name: fmt.Sprintf("g%02d_%d.bin", i, n), content: content(r, n, unit, false)})
+	}
+	return fs
+}
+
+// buildFatAt is buildFat for a volume that begins `start` bytes into the device (a partition); frag makes the
+// files grow alternately one cluster at a time, so that no chain is a run of consecutive clusters.
+func buildFatAt(kind string, r *hx.Rng, start int64, frag bool, label string) (t *target, err error) {
+	defer func() {
+		if rec := recover(); rec != nil {
+			err = fmt.Errorf("panic building %s: %v", label, rec)
+		}
+	}()
+	var size int64
+	switch kind {
+	case "fat12":
+		size = 1474560
+	case "fat16":
+		size = 32 << 20
+	default:
+		size = 64 << 20
+	}
+	dev := memdev.New(start + size + 4096)
+	if start > 0 {
+		dev.RawWrite([]byte("bytes in front of the partition"), start-64) // never part of any file
+	}
+	var fsys filesystem.FileSystem
+	var bpc int
+	switch kind {
+	case "fat12":
+		f, e := fat12.Create(dev, size, start, 512, "C10", true)
+		if e != nil {
+			return nil, e
+		}
+		fsys, bpc = f, f.BytesPerCluster()
+	case "fat16":
+		f, e := fat16.Create(dev, size, start, 512, "C10", true)
+		if e != nil {
+			return nil, e
+		}
+		fsys, bpc = f, f.BytesPerCluster()
+	default:
+		f, e := fat32.Create(dev, size, start, 512, "C10", true)
+		if e != nil {
+			return nil, e
+		}
+		fsys, bpc = f, f.BytesPerCluster()
+	}
+	files := liteFiles(r, bpc)
+	var regimes []string
+	if frag {
+		files = []fileSpec{
+			{name: "a.bin", content: content(r, 5*bpc+100, bpc, false)},
+			{name: "b.bin", content: content(r, 4*bpc, bpc, false)},
+			{name: "c.bin", content: content(r, 3*bpc+1, bpc, false)},
+		}
+		if err := writeInterleaved(fsys, files, bpc, false); err != nil {
+			return nil, err
+		}
+	} else if err := writeAll(fsys, files, onePiece); err != nil {
+		return nil, err
+	}
+	switch kind {
+	case "fat12":
+		fsys, err = fat12.Read(dev, size, start, 512)
+	case "fat16":
+		fsys, err = fat16.Read(dev, size, start, 512)
+	default:
+		fsys, err = fat32.Read(dev, size, start, 512)
+	}
+	if err != nil {
+		return nil, fmt.Errorf("re-reading the %s image: %w", label, err)
+	}
+	t = &target{kind: kind, label: label, unit: bpc, fs: fsys, files: files, layout: fatLayout(bpc), lite: true}
+	if start > 0 {
+		regimes = append(regimes, "regime.start-nonzero."+kind)
+		if start >= 1<<32 {
+			regimes = append(regimes, "regime.device-offset-beyond-4GiB."+kind)
+		}
+	}
+	if frag {
+		// evidence that the chains really are fragmented
+		for _, f := range files {
+			h, e := t.open(f.name)
+			if e != nil {
+				return nil, e
+			}
+			ch, e := h.(*fat12.File).GetClusterChain()
+			if e != nil {
+				return nil, e
+			}
+			jumps := 0
+			for i := 1; i < len(ch); i++ {
+				if ch[i] != ch[i-1]+1 {
+					jumps++
+				}
+			}
+			if jumps == 0 && len(ch) > 1 {
+				return nil, fmt.Errorf("%s: chain of %s is contiguous (%v): the fragmentation regime is not reached", label, f.name, ch)
+			}
+		}
+		regimes = append(regimes, "regime.fat.chain-not-contiguous."+kind)
+	}
+	t.regimes = regimes
+	return t, nil
+}
+
+// writeInterleaved grows the files alternately, piece bytes at a time. keepOpen: through handles that stay open
+// (ext4); otherwise each piece through a fresh handle positioned at the end (FAT handles rewrite their parent
+// directory from a private snapshot - finding fat-stale-parent-snapshot - so they must not overlap in time).
+func writeInterleaved(fsys filesystem.FileSystem, files []fileSpec, piece int, keepOpen bool) error {
+	hs := make([]filesystem.File, len(files))
+	for i, f := range files {
+		h, e := fsys.OpenFile(f.name, os.O_CREATE|os.O_RDWR)
+		if e != nil {
+			return fmt.Errorf("create %s: %w", f.name, e)
+		}
+		hs[i] = h
+		if !keepOpen {
+			if e := h.Close(); e != nil {
+				return e
+			}
+		}
+	}
+	offs := make([]int, len(files))
+	for progress := true; progress; {
+		progress = false
+		for i, f := range files {
+			if offs[i] >= len(f.content) {
+				continue
+			}
+			p := piece
+			if p > len(f.content)-offs[i] {
+				p = len(f.content) - offs[i]
+			}
+			h := hs[i]
+			if !keepOpen {
+				var e error
+				if h, e = fsys.OpenFile(f.name, os.O_RDWR); e != nil {
+					return fmt.Errorf("reopen %s: %w", f.name, e)
+				}
+				if _, e = h.Seek(0, 2); e != nil {
+					return fmt.Errorf("seek to the end of %s: %w", f.name, e)
+				}
+			}
+			n, e := h.Write(f.content[offs[i] : offs[i]+p])
+			if e != nil || n != p {
+				return fmt.Errorf("interleaved write %s at %d: n=%d err=%v", f.name, offs[i], n, e)
+			}
+			if !keepOpen {
+				if e := h.Close(); e != nil {
+					return e
+				}
+			}
+			offs[i] += p
+			progress = true
+		}
+	}
+	if keepOpen {
+		for _, h := range hs {
+			_ = h.Close()
+		}
+	}
+	return nil
 }
 
 func buildFat(kind string, r *hx.Rng, thorough bool) (t *target, err error) {
@@ -283,6 +513,82 @@ func buildExt4(r *hx.Rng, thorough, interleave bool) (t *target, err error) {
 	return &target{kind: "ext4", label: label, unit: unit, fs: rd, files: files, layout: ext4Layout}, nil
 }
 
+// buildExt4Regime: an ext4 volume that begins `start` bytes into the device, with spb 512-byte sectors per block
+// (0 = the library's choice); piece > 0 grows two files alternately piece blocks at a time (piece 1: more than
+// four extents per file, i.e. an extent tree with an index level).
+func buildExt4Regime(r *hx.Rng, start int64, spb uint8, piece int, label string) (t *target, err error) {
+	defer func() {
+		if rec := recover(); rec != nil {
+			err = fmt.Errorf("panic building %s: %v", label, rec)
+		}
+	}()
+	size := int64(32 << 20)
+	if spb >= 8 {
+		size = 288 << 20 // three block groups of 4 KiB blocks (Create needs a backup group for the resize inode)
+	}
+	d := memdev.New(start + size + 4096)
+	fsys, e := ext4.Create(d, size, start, 512, &ext4.Params{SectorsPerBlock: spb})
+	if e != nil {
+		return nil, e
+	}
+	probe, e := fsys.OpenFile("probe.bin", os.O_CREATE|os.O_RDWR)
+	if e != nil {
+		return nil, e
+	}
+	if _, e = probe.Write([]byte{1}); e != nil {
+		return nil, e
+	}
+	bs, _, _, ok := ext4.VerifC10Layout(probe)
+	if !ok {
+		return nil, fmt.Errorf("ext4 layout hook failed")
+	}
+	_ = probe.Close()
+	unit := int(bs)
+	var files []fileSpec
+	if piece > 0 {
+		files = []fileSpec{
+			{name: "a.bin", content: content(r, 13*unit+100, unit, false)},
+			{name: "b.bin", content: content(r, 9*unit+1, unit, false)},
+		}
+		if err := writeInterleaved(fsys, files, piece*unit, true); err != nil {
+			return nil, err
+		}
+	} else {
+		files = liteFiles(r, unit)
+		if err := writeAll(fsys, files, onePiece); err != nil {
+			return nil, err
+		}
+	}
+	rd, e := ext4.Read(d, size, start, 512)
+	if e != nil {
+		return nil, fmt.Errorf("re-reading the %s image: %w", label, e)
+	}
+	t = &target{kind: "ext4", label: label, unit: unit, fs: rd, files: files, layout: ext4Layout, lite: true}
+	if start > 0 {
+		t.regimes = append(t.regimes, "regime.start-nonzero.ext4")
+	}
+	t.regimes = append(t.regimes, fmt.Sprintf("regime.ext4.blocksize=%d", unit))
+	if piece > 0 {
+		maxExt := 0
+		for _, f := range files {
+			h, e := t.open(f.name)
+			if e != nil {
+				return nil, e
+			}
+			_, _, exts, _ := ext4.VerifC10Layout(h)
+			if len(exts) > maxExt {
+				maxExt = len(exts)
+			}
+		}
+		if maxExt > 4 {
+			t.regimes = append(t.regimes, "regime.ext4.extents>4-index-level")
+		} else {
+			t.regimes = append(t.regimes, fmt.Sprintf("regime.ext4.extents=%d", maxExt))
+		}
+	}
+	return t, nil
+}
+
 func isoLayout(f filesystem.File, size int) ([]string, error) {
 	if _, ok := f.(*iso9660.File); !ok {
 		return nil, fmt.Errorf("not an iso9660 handle: %T", f)
@@ -349,18 +655,28 @@ func sqfsLayout(f filesystem.File, size int) ([]string, error) {
 }
 
 func buildSqfs(scratch string, r *hx.Rng, thorough bool, blocksize int64, opts squashfs.FinalizeOptions, label string) (t *target, err error) {
+	return buildSqfsAt(scratch, r, thorough, blocksize, opts, label, 0, false)
+}
+
+// buildSqfsAt: start > 0 puts the image into a partition (the library then goes through backend.Sub);
+// lite selects the small file set of the regime targets.
+func buildSqfsAt(scratch string, r *hx.Rng, thorough bool, blocksize int64, opts squashfs.FinalizeOptions, label string, start int64, lite bool) (t *target, err error) {
 	defer func() {
 		if rec := recover(); rec != nil {
 			err = fmt.Errorf("panic building squashfs: %v", rec)
 		}
 	}()
-	d := memdev.New(32 << 20)
-	w, e := squashfs.Create(d, d.Size(), 0, blocksize)
+	size := int64(32 << 20)
+	d := memdev.New(start + size)
+	w, e := squashfs.Create(d, size, start, blocksize)
 	if e != nil {
 		return nil, e
 	}
 	defer w.Close() // removes the workspace
 	files := mkFiles(r, int(blocksize), thorough)
+	if lite {
+		files = liteFiles(r, int(blocksize))
+	}
 	if opts.Compression != nil {
 		// a real compressor is in use: make the content of whole blocks alternate between
 		// incompressible (random) and compressible (patterned), so that one file mixes stored
@@ -387,9 +703,16 @@ func buildSqfs(scratch string, r *hx.Rng, thorough bool, blocksize int64, opts s
 	if e := w.Finalize(opts); e != nil {
 		return nil, e
 	}
-	rd, e := squashfs.Read(d, d.Size(), 0, blocksize)
+	rd, e := squashfs.Read(d, size, start, blocksize)
 	if e != nil {
 		return nil, e
 	}
-	return &target{kind: "squashfs", label: label, unit: int(blocksize), fs: rd, files: files, layout: sqfsLayout}, nil
+	t = &target{kind: "squashfs", label: label, unit: int(blocksize), fs: rd, files: files, layout: sqfsLayout, lite: lite}
+	if start > 0 {
+		t.regimes = append(t.regimes, "regime.start-nonzero.squashfs")
+	}
+	if lite {
+		t.regimes = append(t.regimes, fmt.Sprintf("regime.squashfs.blocksize=%d", blocksize))
+	}
+	return t, nil
 }
